@@ -19,7 +19,7 @@ def civil(d, off):
 
 
 def mkdt(c, naive):
-    tz = None if naive else dt.timezone(dt.timedelta(minutes=c["off"]))
+    tz = None if naive else dt.timezone(dt.timedelta(minutes=c["off"], seconds=c.get("offs", 0)))
     return dt.datetime(c["y"], c["mo"], c["d"], c["h"], c["mi"], c["s"], c["us"], tzinfo=tz)
 
 
@@ -70,7 +70,10 @@ def rand_civil(rng, boundary=0.5):
     h, mi, s = rng.choice([(0, 0, 0), (23, 59, 59), (rng.randint(0, 23), rng.randint(0, 59), rng.randint(0, 59))])
     us = rng.choice(US_PATTERNS) if rng.random() < boundary else rng.randint(0, 999999)
     off = rng.choice([0, 0, 840, -840, 330, 345, -1, 1, -720, -1439, 1439, rng.randint(-1439, 1439)])
-    return {"y": y, "mo": mo, "d": d, "h": h, "mi": mi, "s": s, "us": us, "off": off}
+    c = {"y": y, "mo": mo, "d": d, "h": h, "mi": mi, "s": s, "us": us, "off": off}
+    if rng.random() < 0.12:        # an offset with a seconds part (local mean time, e.g. +00:19:32), same sign as the minutes
+        c["offs"] = rng.choice([32, 30, 59, 1]) * (-1 if off < 0 else 1)
+    return c
 
 
 def later_neighbour(rng, c):
@@ -88,6 +91,7 @@ def spell(rng, c):
     nf = rng.choice([0, 1, 2, 3, 4, 5, 6, 6])
     us = c["us"] // 10 ** (6 - nf) * 10 ** (6 - nf) if nf else 0
     c = dict(c, us=us, off=0)
+    c.pop("offs", None)
     w = rng.choice(["%02d", "%02d", "%d"])
     s = ("%04d-" + w + "-" + w + "%s" + w + ":" + w + ":" + w) % (c["y"], c["mo"], c["d"], rng.choice("TTt"), c["h"], c["mi"], c["s"])
     if nf:
@@ -125,7 +129,7 @@ def run(chk):
         c = line["c"] or {}
         us = c.get("us", -1)
         usc = "0" if us == 0 else "ms" if us % 1000 == 0 else "sub-ms" if us > 0 else "text"
-        return [line["form"], len(str(c.get("y", 0))), usc, (c.get("off", 0) > 0) - (c.get("off", 0) < 0), line["prec"], line["con"], len(line["out"])]
+        return [line["form"], len(str(c.get("y", 0))), usc, (c.get("off", 0) > 0) - (c.get("off", 0) < 0), "offs" in c, line["prec"], line["con"], len(line["out"])]
 
     def report(line, clause, stage):
         c = line["c"] or {}
@@ -173,6 +177,7 @@ def run(chk):
         k = rng.random()
         if k < 0.15:
             c["off"] = 0
+            c.pop("offs", None)
             try:
                 lines.append(observe("stixdt", c, False, None, prec, con, None, first=rng.choice(PCS)))
             except OverflowError:
@@ -181,9 +186,11 @@ def run(chk):
             naive = rng.random() < 0.3
             if naive:
                 c["off"] = 0
+                c.pop("offs", None)
             lines.append(observe("dt", c, naive, None, prec, con, later_neighbour(rng, c)))
         elif k < 0.65:
             c.update(h=0, mi=0, s=0, us=0, off=0)
+            c.pop("offs", None)
             lines.append(observe("date", c, False, None, prec, con))
         else:
             s, c2 = spell(rng, c)
@@ -265,6 +272,16 @@ def property_lines(rng, n):
         if cls == "MarkingDefinition" and ver == "2.1":
             args["definition"] = stix2.v21.StatementMarking("x")
         args[prop] = mkdt(c, False)
+        first = None
+        if rng.random() < 0.45:
+            # the value as another object would hand it over: a STIXdatetime that already carries a precision label (possibly of another property's rule) and its digits
+            from stix2.utils import parse_into_datetime
+            first = rng.choice(PCS)
+            try:
+                args[prop] = parse_into_datetime(args[prop], *first)
+                c = civil(args[prop].astimezone(dt.timezone.utc), 0)       # the value actually handed over, in UTC
+            except OverflowError:
+                first = None
         if prop == "created" and cls != "File":
             args["modified"] = dt.datetime(9000, 1, 1, tzinfo=dt.timezone.utc)
         if prop == "modified":
@@ -276,7 +293,7 @@ def property_lines(rng, n):
         if cls == "MarkingDefinition":
             args.pop("modified", None)
         line = {"form": "prop", "c": c, "naive": False, "src": [], "prec": prec, "con": con, "hasb": False, "cb": {}, "outb": [],
-                "where": "%s %s.%s" % (ver, cls, prop)}
+                "where": "%s %s.%s" % (ver, cls, prop), "first": list(first) if first else []}
         try:
             obj = getattr(mod, cls)(**args)
             out = json.loads(obj.serialize())[prop]
